@@ -228,7 +228,7 @@ Qed.
 
 Lemma pg_aux_S : forall f first a b step grain,
   pg_aux (S f) first a b step grain =
-  if b - a <=? grain then GDone [((a, b), (first + a * step, first + b * step))]
+  if (b - a <=? grain) || (b - a <=? 1) then GDone [((a, b), (first + a * step, first + b * step))]
   else match pg_aux f first a (a + Z.quot (b - a) 2) step grain,
              pg_aux f first (a + Z.quot (b - a) 2) b step grain with
        | GDone l, GDone r => GDone (l ++ r)
@@ -236,50 +236,74 @@ Lemma pg_aux_S : forall f first a b step grain,
        end.
 Proof. reflexivity. Qed.
 
+Lemma pg_aux_prefix_S : forall f first a b step grain,
+  pg_aux_prefix (S f) first a b step grain =
+  if b - a <=? grain then GDone [((a, b), (first + a * step, first + b * step))]
+  else match pg_aux_prefix f first a (a + Z.quot (b - a) 2) step grain,
+             pg_aux_prefix f first (a + Z.quot (b - a) 2) b step grain with
+       | GDone l, GDone r => GDone (l ++ r)
+       | _, _ => GOutOfFuel
+       end.
+Proof. reflexivity. Qed.
+
+(** a leaf has at most [max grain 1] indices: a grain size below one acts as one *)
 Definition gleaf_ok (first step grain : Z) (x : (Z * Z) * (Z * Z)) : Prop :=
   let '((a, b), (lo, hi)) := x in
-  b - a <= grain /\ lo = first + a * step /\ hi = first + b * step.
+  b - a <= Z.max grain 1 /\ lo = first + a * step /\ hi = first + b * step.
 
-Lemma pg_aux_spec : forall f first a b step grain, 1 <= grain -> a < b -> b - a <= 2 ^ Z.of_nat f ->
+Lemma pg_aux_spec : forall f first a b step grain, a < b -> b - a <= 2 ^ Z.of_nat f ->
   exists l, pg_aux (S f) first a b step grain = GDone l /\
             chain a b (map fst l) /\ Forall (gleaf_ok first step grain) l.
 Proof.
-  induction f as [|f IH]; intros first a b step grain Hg Hab Hsz.
-  - cbn in Hsz. rewrite pg_aux_S. replace (b - a <=? grain) with true by (symmetry; apply Z.leb_le; lia).
+  induction f as [|f IH]; intros first a b step grain Hab Hsz.
+  - cbn in Hsz. rewrite pg_aux_S.
+    replace (b - a <=? 1) with true by (symmetry; apply Z.leb_le; lia). rewrite orb_true_r.
     eexists. split; [reflexivity|]. split.
     + cbn. repeat split; lia.
     + constructor; [|constructor]. cbn. repeat split; lia.
-  - rewrite pg_aux_S. destruct (b - a <=? grain) eqn:E.
-    + apply Z.leb_le in E. eexists. split; [reflexivity|]. split.
+  - rewrite pg_aux_S. destruct ((b - a <=? grain) || (b - a <=? 1)) eqn:E.
+    + apply orb_true_iff in E. rewrite !Z.leb_le in E.
+      eexists. split; [reflexivity|]. split.
       * cbn. repeat split; lia.
       * constructor; [|constructor]. cbn. repeat split; lia.
-    + apply Z.leb_gt in E.
+    + apply orb_false_iff in E. destruct E as [E0 E1]. apply Z.leb_gt in E0. apply Z.leb_gt in E1.
       pose proof (quot_half_bounds (b - a) ltac:(lia)) as [Hq0 Hq].
       rewrite pow2_succ in Hsz.
-      destruct (IH first a (a + Z.quot (b - a) 2) step grain Hg ltac:(lia) ltac:(lia)) as [l1 [E1 [C1 F1]]].
-      destruct (IH first (a + Z.quot (b - a) 2) b step grain Hg ltac:(lia) ltac:(lia)) as [l2 [E2 [C2 F2]]].
-      rewrite E1, E2. exists (l1 ++ l2). split; [reflexivity|]. split.
+      destruct (IH first a (a + Z.quot (b - a) 2) step grain ltac:(lia) ltac:(lia)) as [l1 [E1' [C1 F1]]].
+      destruct (IH first (a + Z.quot (b - a) 2) b step grain ltac:(lia) ltac:(lia)) as [l2 [E2' [C2 F2]]].
+      rewrite E1', E2'. exists (l1 ++ l2). split; [reflexivity|]. split.
       * rewrite map_app. eapply chain_app; eassumption.
       * apply Forall_app. split; assumption.
 Qed.
 
 (** an empty or reversed index range is passed to the body as it is, once *)
-Lemma pg_aux_nonpos : forall f first a b step grain, 0 <= grain -> b <= a ->
+Lemma pg_aux_nonpos : forall f first a b step grain, b <= a ->
   pg_aux (S f) first a b step grain = GDone [((a, b), (first + a * step, first + b * step))].
 Proof.
-  intros f first a b step grain Hg Hab. rewrite pg_aux_S.
-  replace (b - a <=? grain) with true by (symmetry; apply Z.leb_le; lia). reflexivity.
+  intros f first a b step grain Hab. rewrite pg_aux_S.
+  replace (b - a <=? 1) with true by (symmetry; apply Z.leb_le; lia). rewrite orb_true_r. reflexivity.
 Qed.
 
-(** grain sizes below 1 are outside the contract: a one-element range is split forever *)
-Lemma pg_aux_grain0_diverges : forall fuel first a step grain, grain <= 0 ->
-  pg_aux fuel first a (a + 1) step grain = GOutOfFuel.
+(** the code before the repair: with a grain size below 1 a one-element range is split forever *)
+Lemma pg_aux_prefix_grain0_diverges : forall fuel first a step grain, grain <= 0 ->
+  pg_aux_prefix fuel first a (a + 1) step grain = GOutOfFuel.
 Proof.
   induction fuel as [|f IH]; intros first a step grain Hg; [reflexivity|].
-  rewrite pg_aux_S. replace (a + 1 - a <=? grain) with false by (symmetry; apply Z.leb_gt; lia).
+  rewrite pg_aux_prefix_S. replace (a + 1 - a <=? grain) with false by (symmetry; apply Z.leb_gt; lia).
   replace (a + 1 - a) with 1 by lia. change (Z.quot 1 2) with 0. rewrite Z.add_0_r.
   rewrite (IH first a step grain Hg).
-  destruct (pg_aux f first a a step grain); reflexivity.
+  destruct (pg_aux_prefix f first a a step grain); reflexivity.
+Qed.
+
+(** for grain sizes inside TBB's contract the repaired and the old code agree *)
+Lemma pg_aux_prefix_agrees : forall fuel first a b step grain, 1 <= grain ->
+  pg_aux_prefix fuel first a b step grain = pg_aux fuel first a b step grain.
+Proof.
+  induction fuel as [|f IH]; intros first a b step grain Hg; [reflexivity|].
+  rewrite pg_aux_prefix_S, pg_aux_S.
+  destruct (b - a <=? grain) eqn:E0; [reflexivity|].
+  apply Z.leb_gt in E0. replace (b - a <=? 1) with false by (symmetry; apply Z.leb_gt; lia).
+  cbn [orb]. rewrite !IH by exact Hg. reflexivity.
 Qed.
 
 Definition pg_result (first last step grain : Z) (l : list ((Z * Z) * (Z * Z))) : Prop :=
@@ -289,13 +313,13 @@ Definition pg_result (first last step grain : Z) (l : list ((Z * Z) * (Z * Z))) 
             flat_map (fun p => zrange (fst p) (snd p)) (map fst l) = zrange 0 n) /\
   (n <= 0 -> map fst l = [(0, n)]).
 
-Lemma pf_grain_spec : forall f first last step grain, 1 <= step -> 1 <= grain ->
+Lemma pf_grain_spec : forall f first last step grain, 1 <= step ->
   count3 first last step <= 2 ^ Z.of_nat f ->
   exists l, pf_grain (S f) first last step grain = GDone l /\ pg_result first last step grain l.
 Proof.
-  intros f first last step grain Hs Hg Hf. unfold pf_grain, pg_result. cbn zeta.
+  intros f first last step grain Hs Hf. unfold pf_grain, pg_result. cbn zeta.
   destruct (Z_lt_le_dec 0 (count3 first last step)) as [Hn|Hn].
-  - destruct (pg_aux_spec f first 0 (count3 first last step) step grain Hg Hn ltac:(lia)) as [l [E [C F]]].
+  - destruct (pg_aux_spec f first 0 (count3 first last step) step grain Hn ltac:(lia)) as [l [E [C F]]].
     exists l. split; [exact E|]. split; [exact F|]. split.
     + intros _. split; [exact C|apply chain_cover; exact C].
     + intros H. lia.
@@ -310,10 +334,9 @@ Lemma pf_grain_guarded : forall bits f first last step grain, 1 <= bits -> bits 
 Proof.
   intros bits f first last step grain Hb Hf G. unfold pg_guard in G.
   apply andb_prop in G; destruct G as [G _]. apply andb_prop in G; destruct G as [G _].
-  apply andb_prop in G; destruct G as [G Hg]. apply andb_prop in G; destruct G as [G _].
+  apply andb_prop in G; destruct G as [G _].
   destruct (pf3_guard_count bits first last step Hb G) as [Hs Hn].
-  apply Z.leb_le in Hg.
-  apply pf_grain_spec; [exact Hs|exact Hg|].
+  apply pf_grain_spec; [exact Hs|].
   assert (2 ^ (bits - 1) <= 2 ^ Z.of_nat f) by (apply Z.pow_le_mono_r; lia). lia.
 Qed.
 
